@@ -39,7 +39,10 @@ NOMINAL_SRC = {
 ENUMS = {"Color": L.Color, "Size": L.Size}
 STATES = {"Inner": L.Inner, "Node": L.Node}
 LITERALS = [[1, "a"], ["x", "y"], [True], [1, 2, 3], [None, "n"], [0]]
-TARGS = ["int", "str", "Inner", "Color", "bool"]  # arguments used to specialise generics
+TARGS = ["int", "str", "Inner", "Color", "bool", "seq_int", "seq_str"]  # arguments used to specialise generics
+# pairs whose rendered names coincide or are easily confused: both specialisations are created in one case
+TARG_SIBLING = {"seq_int": "seq_str", "seq_str": "seq_int", "int": "str", "str": "int", "bool": "int", "Inner": "Color", "Color": "Inner"}
+TARG_SRC = {"seq_int": "Sequence[int]", "seq_str": "Sequence[str]"}
 
 
 def T(kind, **kw):
@@ -47,6 +50,10 @@ def T(kind, **kw):
 
 
 def _targ_term(name):
+    if name == "seq_int":
+        return T("seq", of=T("int"))
+    if name == "seq_str":
+        return T("seq", of=T("str"))
     if name in NOMINAL:
         return T(name)
     if name in STATES:
@@ -78,7 +85,7 @@ def render(term, aliases: list) -> str:
     if k == "self":
         return "Self"
     if k == "generic":
-        return f"GBox[{term['arg']}]"
+        return f"GBox[{TARG_SRC.get(term['arg'], term['arg'])}]"
     if k == "tvar":
         return "T"
     if k == "var":
@@ -241,8 +248,16 @@ def build(v, env: Env):
     if k == "odict":
         return collections.OrderedDict((build(a, env), build(b, env)) for a, b in v["items"])
     if k == "mproxy":
-        return types.MappingProxyType({build(a, env): build(b, env) for a, b in v["items"]})
+        backing = {build(a, env): build(b, env) for a, b in v["items"]}
+        proxy = types.MappingProxyType(backing)
+        PROXY_BACKING[id(proxy)] = (proxy, backing)  # a proxy is only a VIEW: the caller can still mutate the dict behind it
+        if len(PROXY_BACKING) > 2000:
+            PROXY_BACKING.clear()
+        return proxy
     raise ValueError(k)
+
+
+PROXY_BACKING: dict = {}
 
 
 def _some_function(x):
@@ -253,6 +268,10 @@ _OBJ = object()
 
 
 def _targ_type(name):
+    if name == "seq_int":
+        return Sequence[int]
+    if name == "seq_str":
+        return Sequence[str]
     if name in NOMINAL:
         return NOMINAL[name]
     if name in STATES:
@@ -296,7 +315,7 @@ def render_value(v) -> str:
     if k == "state":
         return v["s"] + "(" + ", ".join(f"{n}={render_value(x)}" for n, x in v["f"].items()) + ")"
     if k == "gbox":
-        cls = "GBox" if v["arg"] is None else f"GBox[{v['arg']}]"
+        cls = "GBox" if v["arg"] is None else f"GBox[{TARG_SRC.get(v['arg'], v['arg'])}]"
         return f"{cls}(v={render_value(v['val'])}, items=[{', '.join(render_value(x) for x in v.get('items', []))}])"
     if k in ("list", "deque"):
         return "[" + ", ".join(render_value(x) for x in v["items"]) + "]"
